@@ -813,6 +813,7 @@ func TestVerifC06(t *testing.T) {
 	for i := 0; i < v.Pick(1200, 20000); i++ {
 		w.random(t, rs)
 	}
+	w.proposerStreams(t)
 	hs := v.Stream("rep_h", "replica_mismatches", 300)
 	for n := 2; n <= v.Pick(5, 7); n++ {
 		w.holes(t, hs, n, !v.Thorough())
